@@ -120,3 +120,53 @@ def rule_probe_guard(ctx: Ctx, prog: Program) -> None:
                                       "the shaving probe pushes a temporary choice point but nothing ensures stacks_top[0] + 1 < len(shr_domains_stack): "
                                       "at the last level it writes past the stacks")
     ctx.floor("R-CAPACITY:probe-sites", n, 1)
+
+
+NARROW = {"uint8", "uint16", "int8", "int16", "ubyte", "ushort", "byte", "short"}
+
+
+def rule_narrow_convert(ctx: Ctx, prog: Program) -> None:
+    """R-NARROW-CONVERT.  The engine's index arrays are 8/16-bit.  They are built from Python lists with np.array(list, dtype=narrow), which
+    REFUSES (OverflowError) a value that does not fit.  A conversion that wraps instead -- ndarray.astype(narrow), np.asarray(..).astype(..),
+    or np.array(<an array>, dtype=narrow) -- silently aliases index 65536 + k onto k.  Rule: in the Python-level model / solver code no
+    index array is produced by a wrapping conversion to an 8/16-bit type."""
+    import ast
+
+    ctx.rule("R-NARROW-CONVERT")
+    n_checked = 0
+    for m in prog.modules.values():
+        if not (m.name.startswith(f"{prog.package}.problems") or m.name.startswith(f"{prog.package}.solvers")):
+            continue
+        for f in [fi for fi in prog.all_functions() if fi.module == m.name and not fi.njit]:
+            for node in ast.walk(f.node):
+                if not isinstance(node, ast.Call):
+                    continue
+                fsrc = ast.unparse(node.func)
+                dt = None
+                if isinstance(node.func, ast.Attribute) and node.func.attr == "astype" and node.args:
+                    dt = ast.unparse(node.args[0])
+                    kind = "astype"
+                elif fsrc in ("np.array", "numpy.array", "np.asarray", "numpy.asarray"):
+                    for kw in node.keywords:
+                        if kw.arg == "dtype":
+                            dt = ast.unparse(kw.value)
+                    kind = "array"
+                else:
+                    continue
+                if dt is None or dt.split(".")[-1] not in NARROW:
+                    continue
+                n_checked += 1
+                if kind == "astype":
+                    ctx.violation("R-NARROW-CONVERT", f.path, f.qualname, f"astype:{dt.split('.')[-1]}", f"{f.path}:{node.lineno}",
+                                  f"{f.qualname} converts with `{ast.unparse(node)[:80]}`: astype wraps values that do not fit {dt} instead of refusing them "
+                                  "(np.array(<list>, dtype=...) raises OverflowError): an index beyond the type's range silently aliases a smaller one")
+                    continue
+                src = node.args[0] if node.args else None
+                from_array = isinstance(src, ast.Call) and ast.unparse(src.func).split(".")[-1] in ("array", "asarray", "arange", "zeros", "ones", "empty", "full")
+                if from_array:
+                    ctx.violation("R-NARROW-CONVERT", f.path, f.qualname, f"array-of-array:{dt.split('.')[-1]}", f"{f.path}:{node.lineno}",
+                                  f"{f.qualname} builds a {dt} array from another array (`{ast.unparse(node)[:80]}`): array-to-array conversion wraps silently")
+                else:
+                    ctx.ok("R-NARROW-CONVERT", f"{f.qualname}: {ast.unparse(node)[:70]} (checking constructor: a Python int that does not fit raises)", nontrivial=True)
+    ctx.floor("R-NARROW-CONVERT:narrow-constructions", n_checked, 2)
+    ctx.assume("NumPy >= 2 semantics: np.array(list_of_python_ints, dtype=narrow) raises OverflowError for an out-of-range element")
